@@ -51,6 +51,15 @@ def checkText (cfg : Config) (kind : String) (a : Dec) (text : String) : Bool ×
     if !safeValueEq r a then (false, "value changed: " ++ showDec r)
     else
       let exemptRep := kind == "eng" || ((kind.startsWith "display" || kind == "tostring") && a.scale < 0 && a.scale ≥ -(cfg.highThreshold : Int))
+      -- Display switches to exponent notation exactly at the configured zero counts
+      -- (the padding limit is a documented output-size bound and wins when it is smaller)
+      let isDisplay := kind.startsWith "display" || kind == "tostring"
+      let nd := Spec.numDigits a.int.natAbs
+      let wantExp : Bool :=
+        if a.scale ≤ 0 then (-a.scale).toNat > min cfg.highThreshold cfg.maxPadding
+        else a.scale.toNat ≥ nd && a.scale.toNat - nd > cfg.lowThreshold
+      let hasExp := text.toList.any (fun c => c == 'e' || c == 'E')
+      if isDisplay && hasExp != wantExp then (false, "notation switch not at the configured threshold") else
       let lenOk := !(kind.startsWith "display" || kind == "tostring") ||
         text.length ≤ Spec.numDigits a.int.natAbs + cfg.lowThreshold + cfg.highThreshold + 30
       if !lenOk then (false, "display too long")
